@@ -130,6 +130,30 @@ func init() {
 		add(id, txAssumptions, tier("quick", twice)...)
 	}
 
+	sellAll := HSpec{Pkg: txPkg, Func: "VerifHarness_SellAllPool_Deliver", Configs: []map[string]int64{
+		cfg("pool20", 1, "concretePool", 1, "concretePrices", 1, "zeroable", 2, "zeroableOn", 1, "gasCoinField", 0),
+		cfg("pool20", 1, "concretePool", 1, "concretePrices", 1, "zeroable", 2, "zeroableOn", 1, "gasCoinField", 1),
+	}, Bounds: "one CheckTx+DeliverTx of SellAllSwapPool token->base through a pool with concrete reserves and price table; balances and minimum symbolic; the envelope's gas-coin field differs from the coin sold"}
+	for _, id := range []string{"C01", "C02", "C03", "C05", "C06", "C07", "C15"} {
+		add(id, txAssumptions, tier("quick", sellAll)...)
+	}
+	msig := HSpec{Pkg: txPkg, Func: "VerifHarness_Multisig_Send", Configs: []map[string]int64{cfg("nsig", 2, "concretePrices", 1), cfg("nsig", 1, "concretePrices", 1)},
+		Bounds: "Send from a 3-owner multisig account; weights and threshold full uint32, each of <= 2 signatures is any owner or a stranger (duplicates included)"}
+	msig3 := HSpec{Pkg: txPkg, Func: "VerifHarness_Multisig_Send", Configs: []map[string]int64{cfg("nsig", 3, "concretePrices", 1)}, Bounds: "as above with 3 signatures"}
+	add("C05", txAssumptions, tier("quick", msig)...)
+	add("C05", txAssumptions, tier("thorough", msig3)...)
+	add("C07", txAssumptions, tier("thorough", msig)...)
+	mint := HSpec{Pkg: txPkg, Func: "VerifHarness_MintToken_Deliver", Configs: []map[string]int64{
+		cfg("coin", 3, "pool10", 1, "lp10", 1, "concretePool", 1, "concretePrices", 1, "signerB", 1),
+		cfg("coin", 3, "pool10", 1, "lp10", 1, "concretePool", 1, "concretePrices", 1, "signerB", 0),
+		cfg("coin", 2, "concretePrices", 1, "signerB", 0),
+		cfg("coin", 2, "concretePrices", 1, "signerB", 1),
+		cfg("coin", 1, "concretePrices", 1, "signerB", 0),
+	}, Bounds: "MintToken of the token, the bancor coin or the pool token by the ticker owner or another account; amount symbolic"}
+	for _, id := range []string{"C22", "C05", "C02", "C01"} {
+		add(id, txAssumptions, tier("quick", mint)...)
+	}
+
 	// ---------------------------------------------------------- blocks
 	byz := HSpec{Pkg: minterPkg, Func: "VerifHarness_Block_ByzantineAndMaturity", Configs: []map[string]int64{cfg("evidence", 1), cfg("evidence", 0)},
 		Bounds: "one BeginBlock at height 1000: byzantine evidence against validator P (or none), 5 frozen items (2 maturing now, one of them a pending move), all amounts unbounded positive integers"}
@@ -184,6 +208,28 @@ func init() {
 		c20("VerifHarness_C20_Halt", "thorough", -3),
 		c20("VerifHarness_C20_Commission", "thorough", 3, -3),
 		c20("VerifHarness_C20_Network", "thorough", 3, -2, -3))
+
+	// ---------------------------------------------------------- C12 formula layer
+	{
+		real := gosym.HarnessOpts{RealBodies: []string{modulePath + "/formula."}}
+		var quick, all []map[string]int64
+		quick = append(quick, cfg("crr100", 1))
+		for _, c := range []int{10, 33, 50, 99} {
+			quick = append(quick, cfg("crr", c))
+		}
+		for c := 10; c <= 99; c++ {
+			all = append(all, cfg("crr", c))
+		}
+		for _, fn := range []string{"SaleReturn", "PurchaseReturn", "PurchaseAmount", "SaleAmount"} {
+			add("C12", append([]string{
+				"formula layer only: big.Float arithmetic over exact reals, Int(nil) as truncation; math.Pow is an uninterpreted function constrained by x^y facts (positive for positive base, =1 at base 1 or exponent 0, <=1 / >=1 on either side of base 1 for positive exponents, x^1 = x, 0^y = 0); the exponent the code passes to Pow is asserted structurally",
+				"the accuracy of math/pow.go, exp.go, log.go and of 100-bit rounding (the 'bounded relative floating-point error' half of the property) is outside this check",
+				"reserve ratio: concrete per run (quick: 10, 33, 50, 99, 100; thorough: every value 10..99 and 100), amounts unbounded",
+			}, commonAssumptions...),
+				HSpec{Pkg: "formula", Func: "VerifHarness_C12_" + fn, Tier: "quick", Configs: quick, Opts: real, Bounds: "supply, reserve, amount unbounded positive integers; crr as configured"},
+				HSpec{Pkg: "formula", Func: "VerifHarness_C12_" + fn, Tier: "thorough", Configs: all, Opts: real, Bounds: "every reserve ratio 10..99"})
+		}
+	}
 
 	// ---------------------------------------------------------- C13 / C14 pool kernels and order book
 	add("C13", append([]string{
